@@ -24,9 +24,12 @@ import (
 type vec struct {
 	Clock, Rng int
 	Maps       []int
+	Zone       int `json:",omitempty"`
 }
 
-func (v vec) String() string { return fmt.Sprintf("clock=%d rng=%d maps=%v", v.Clock, v.Rng, v.Maps) }
+func (v vec) String() string {
+	return fmt.Sprintf("clock=%d rng=%d zone=%d maps=%v", v.Clock, v.Rng, v.Zone, v.Maps)
+}
 
 func execute(h scen.C06History, v vec) (obs []string, pts []verifrt.Point, err error) {
 	defer func() {
@@ -35,6 +38,7 @@ func execute(h scen.C06History, v vec) (obs []string, pts []verifrt.Point, err e
 		}
 	}()
 	verifrt.Reset(v.Clock, v.Rng, v.Maps)
+	verifrt.SetZone(v.Zone)
 	w := world.New(h.Sc.Config())
 	e := w.NewEnvB()
 	m := h.Sc.Init(e)
@@ -103,7 +107,7 @@ func checkHistory(h scen.C06History, bound int, out *shardOut) {
 		out.Sites[s]++
 	}
 	var vecs []vec
-	vecs = append(vecs, vec{Clock: 1}, vec{Rng: 1})
+	vecs = append(vecs, vec{Clock: 1}, vec{Rng: 1}, vec{Zone: 1})
 	single := func(i, c int) []int {
 		m := make([]int, len(pts))
 		m[i] = c
@@ -115,10 +119,10 @@ func checkHistory(h scen.C06History, bound int, out *shardOut) {
 		}
 	}
 	if bound >= 2 {
-		vecs = append(vecs, vec{Clock: 1, Rng: 1})
+		vecs = append(vecs, vec{Clock: 1, Rng: 1}, vec{Clock: 1, Zone: 1}, vec{Rng: 1, Zone: 1})
 		for i, p := range pts {
 			for c := 1; c < p.Arity; c++ {
-				vecs = append(vecs, vec{Clock: 1, Maps: single(i, c)}, vec{Rng: 1, Maps: single(i, c)})
+				vecs = append(vecs, vec{Clock: 1, Maps: single(i, c)}, vec{Rng: 1, Maps: single(i, c)}, vec{Zone: 1, Maps: single(i, c)})
 				for j := i + 1; j < len(pts); j++ {
 					for d := 1; d < pts[j].Arity; d++ {
 						m := single(i, c)
@@ -142,10 +146,12 @@ func checkHistory(h scen.C06History, bound int, out *shardOut) {
 				what = kindOfLine(y)
 			}
 			dep := "map-iteration-order"
-			if v.Clock == 1 && len(v.Maps) == 0 && v.Rng == 0 {
+			if v.Clock == 1 && len(v.Maps) == 0 && v.Rng == 0 && v.Zone == 0 {
 				dep = "wall-clock"
 			} else if v.Rng == 1 && len(v.Maps) == 0 && v.Clock == 0 {
 				dep = "process-local-randomness"
+			} else if v.Zone == 1 && len(v.Maps) == 0 && v.Clock == 0 && v.Rng == 0 {
+				dep = "host-time-zone"
 			}
 			out.Viols = append(out.Viols, mc.Record{Property: "C06", Scenario: h.Sc.Name(), Kind: "c06", Clause: "identical-results-on-independent-executions",
 				Signature: "identical-results-on-independent-executions:" + what + " depends-on=" + dep,
@@ -277,7 +283,7 @@ func main() {
 		if tier == "thorough" {
 			bound = 2
 		}
-		r.Rules = append(r.Rules, fmt.Sprintf("for every history (all search-tree paths of the C06/mix scenario to suffix depth %d extended to a reward block, plus search-tree paths of the C17, C01, C09, C10, C18, C14, C07 scenarios): one execution of the real ABCI pipeline on a fresh node per choice vector with <= %d deviations from the default (every permutation of every map iteration reached, two wall-clock bases, two initial RNG seeds); states = histories, transitions = executions; a history is non-trivial if its default execution is reproducible", map[string]int{"quick": 2, "thorough": 3}[tier], bound))
+		r.Rules = append(r.Rules, fmt.Sprintf("for every history (all search-tree paths of the C06/mix scenario to suffix depth %d extended to a reward block, plus search-tree paths of the C17, C01, C09, C10, C18, C14, C07 scenarios): one execution of the real ABCI pipeline on a fresh node per choice vector with <= %d deviations from the default (every permutation of every map iteration reached, two wall-clock bases, two initial RNG seeds, two host time zones: UTC and one with daylight saving); states = histories, transitions = executions; a history is non-trivial if its default execution is reproducible", map[string]int{"quick": 2, "thorough": 3}[tier], bound))
 		r.Assumptions = append(r.Assumptions, "nondeterminism sources are those the seamgen inventory finds in x/, app/, wasmbinding/, types/ (map ranges, time.Now, tendermint rand.NewRand); go statements/select: none outside generated gateway code", "SDK, Tendermint and wasmvm internals are taken as deterministic")
 		for i, s := range total.Samples {
 			if i < 4 {
